@@ -148,6 +148,12 @@ def run():
                     lambda a, ax=ax: np.percentile(np.asarray(a), 75, axis=ax), m)
                 cmp("quantile_nu(axis)", lambda a, ax=ax: np.quantile(a, 0.3, axis=ax, method="normal_unbiased"),
                     lambda a, ax=ax: np.quantile(np.asarray(a), 0.3, axis=ax, method="normal_unbiased"), m)
+        import scipy.stats
+        for a in VECTORS:
+            for b in VECTORS:
+                if len(a) == len(b) and 2 <= len(a) <= 5 and not any(math.isinf(v) for v in a + b):
+                    cmp("spearmanr", lambda x, y: A.m_spearmanr(x, y)[0], lambda x, y: scipy.stats.spearmanr(x, y)[0], a, b)
+                    cmp("kendalltau", lambda x, y: A.m_kendalltau(x, y)[0], lambda x, y: scipy.stats.kendalltau(x, y)[0], a, b)
         # masked arrays
         for v, mask in (([1.0, 0.0, 1.0], [False, False, True]), ([1.0, 1.0], [True, True]),
                         ([0.0, 1.0, 1.0, 0.0], [False, True, False, False])):
